@@ -318,6 +318,13 @@ func (s *Stream) WriteSCTP(payload []byte, ppi PayloadProtocolIdentifier) (int, 
 		return 0, ErrStreamClosed
 	}
 
+	if len(payload) == 0 {
+		// Nothing to send. packetize would still consume a stream sequence
+		// number (or message identifier) without producing a chunk, and the
+		// receiver would wait for that message forever.
+		return 0, nil
+	}
+
 	// the send could fail if the association is blocked for writing (timeout), it will left a hole
 	// in the stream sequence number space, so we need to lock the write to avoid concurrent send and decrement
 	// the sequence number in case of failure
